@@ -136,13 +136,24 @@ func searchLoopbackVia(w *World, q *QueryDef, resp map[string]*protoCommonV1.Tas
 	if real {
 		mgr = realTaskMgr()
 	}
+	// round 12: on the direct schedules the targets sit in TWO physical plans (sorted, alternating):
+	// the real search pipeline then sends one request per plan's targets
+	plans := [][]string{targets}
+	if !real && len(targets) >= 2 {
+		st := append([]string(nil), targets...)
+		sort.Strings(st)
+		plans = [][]string{nil, nil}
+		for i, t := range st {
+			plans[i%2] = append(plans[i%2], t)
+		}
+	}
 	tr := &lbTransport{recv: mgr, resp: resp, inline: inline, rng: rng, total: len(targets)}
 	ctx, cancel := context.WithTimeout(context.Background(), 3*time.Second)
 	defer cancel()
 	rs, err := query.MetricDataSearch(ctx, &models.ExecuteParam{Database: database, SQL: "q"}, q.statement(w), &query.SearchMgr{
 		Timeout:      2 * time.Second,
 		CurNode:      models.StatelessNode{HostIP: "1.1.1.1", GRPCPort: 9000},
-		Choose:       &plainChooser{targets: targets},
+		Choose:       &plainChooser{plans: plans},
 		TaskMgr:      mgr,
 		TransportMgr: tr,
 	})
